@@ -142,6 +142,30 @@ func semEqual(u *U, a, b *E) (bool, string) {
 	return true, ""
 }
 
+// normCond rewrites the atoms of a condition whose operands contain selections that the condition
+// itself decides (x < ite(p, a, b) under p becomes x < a), so that it can be compared with
+// conditions built from the selected alternatives.
+func normCond(u *U, c Ref) Ref {
+	for round := 0; round < 3; round++ {
+		changed := false
+		for _, v := range u.bdd.Support(c) {
+			at := u.atoms[v]
+			if !u.Mentions(at, func(e *E) bool { return e.Op == "ite" }) {
+				continue
+			}
+			nat := u.Specialize(at, c)
+			if nat != at {
+				c = u.bdd.Compose(c, v, u.ToBool(nat))
+				changed = true
+			}
+		}
+		if !changed {
+			break
+		}
+	}
+	return c
+}
+
 func runC17(c *Ctx) {
 	c.Rule("C17.R1", "PDT", "ThirdParty <=> SourceDomain != \"\" && SourceDomain != Domain", 1)
 	c.Rule("C17.R2", "PDT", "Domain / SourceDomain = eTLD+1 if non-empty else the hostname", 3)
@@ -355,6 +379,91 @@ func runC17(c *Ctx) {
 		if n == 0 {
 			c.Fail("C17.R7", shortFn(ext)+": delimiter searches", ext.Pos(), "UNDECIDED: no strings.Index* call found in the result")
 		}
+	}
+
+	// ---------- R8: the hostname is the text between the scheme separator and the next delimiter ----------
+	{
+		c.Rule("C17.R8", "PDT", "hostname extractor: result = url[start:end], start right after \"//\" (or one before the first ':'), end at the first of / : ? after start", 1)
+		g := NewGate(c.P)
+		g.Inline = inlineOnly()
+		s := g.Eval(ext)
+		u := g.U
+		url := g.ParamExprs(ext)[0]
+		intT := types.Typ[types.Int]
+		dslash := u.LibCall("strings.Index", intT, url, u.Str("//"))
+		colon := u.LibCall("strings.Index", intT, url, u.Str(":"))
+		noSlash := u.ToBool(u.Lt(dslash, u.Int(0)))
+		start := u.ITE(noSlash, u.Bin(token.SUB, colon, u.Int(1), intT), u.Bin(token.ADD, dslash, u.Int(2), intT))
+		res := g.RetExpr(s, 0)
+		bad := ""
+		n := 0
+		// the two forms of URL separately, so that the selections inside the searches are resolved
+		sel := u.NestedSelectors(res)
+		for _, v := range u.bdd.Support(noSlash) {
+			dup := false
+			for _, w := range sel {
+				dup = dup || w == v
+			}
+			if !dup {
+				sel = append(sel, v)
+			}
+		}
+		var forms []Ref
+		if len(sel) <= 8 {
+			for m := 0; m < 1<<len(sel); m++ {
+				care := True
+				for i, v := range sel {
+					lit := u.bdd.Var(v)
+					if m&(1<<i) == 0 {
+						lit = u.bdd.Not(lit)
+					}
+					care = u.bdd.And(care, lit)
+				}
+				forms = append(forms, care)
+			}
+		} else {
+			forms = []Ref{noSlash, u.bdd.Not(noSlash)}
+		}
+		for _, form := range forms {
+			resF := u.Specialize(res, form)
+			for leaf, lc0 := range u.Leaves(resF) {
+				lc := normCond(u, u.bdd.And(lc0, form))
+				if lc == False {
+					continue
+				}
+				if sv, ok := leaf.StrVal(); ok && sv == "" {
+					continue
+				}
+				n++
+				if leaf.Op != "slice" || leaf.Args[0] != url || leaf.Args[1] == nil {
+					bad = "UNDECIDED: a non-empty result is not a slice of the URL: " + clip(u.Show(leaf), 100)
+					continue
+				}
+				lo := u.Specialize(leaf.Args[1], lc)
+				want := u.Specialize(start, lc)
+				if ok, why := semEqual(u, lo, want); !ok {
+					bad = "the hostname does not start right after the scheme separator (" + why + "): anything skipped or kept there (userinfo search across the whole URL, a fixed offset) moves the hostname into the path or the scheme"
+				}
+				// end: the first delimiter after start, or the end of the URL
+				rest := u.Slice(url, lo, nil, nil, strT)
+				anyIdx := u.LibCall("strings.IndexAny", intT, rest, u.Str("/:?"))
+				end := u.ITE(u.ToBool(u.Lt(anyIdx, u.Int(0))), u.Len(url), u.Bin(token.ADD, anyIdx, lo, intT))
+				hi := leaf.Args[2]
+				if hi == nil {
+					hi = u.Len(url)
+				}
+				if os.Getenv("UFCHECK_DEBUG_C17") != "" {
+					fmt.Println("R8 leaf", clip(u.Show(leaf), 200), "\n  lc", clip(u.ShowBool(lc), 600), "\n  end", clip(u.Show(u.Specialize(end, lc)), 300))
+				}
+				if ok, why := semEqual(u, u.Specialize(hi, lc), u.Specialize(end, lc)); !ok && bad == "" {
+					bad = "the hostname does not end at the first of '/', ':', '?' after its start (" + why + ")"
+				}
+			}
+		}
+		if n == 0 && bad == "" {
+			bad = "UNDECIDED: no non-empty result"
+		}
+		c.Check(bad == "", "C17.R8", shortFn(ext)+": url[start:end] with the documented start and end", ext.Pos(), fmt.Sprintf("%d result form(s) compared with the documented bounds", n), bad)
 	}
 
 	// ---------- R6: eTLD+1 decision table ----------
